@@ -541,7 +541,7 @@ def cache_cases(c, res, ident):
     for pr in res.get("cache_probes", []):
         var = pr["var"]
         k = var["kind"]
-        c.hist("cache-probe:" + k)
+        c.hist("cache-probe:" + k + (":" + var["value_class"] if "value_class" in var else ""))
         c.count(("cache", ident["map"], json.dumps(ident["opts"], sort_keys=True), json.dumps(var, sort_keys=True)), nontrivial=k not in ("same",))
         used = pr["outcome"] == "cache"
         if pr["outcome"].startswith("error"):
